@@ -2,7 +2,7 @@
    residuals of a 12-variable program with 53-bit dyadic coefficients are rationals with denominators of several
    thousand bits (Qplus does not reduce), far too slow on the inductive binary numbers. *)
 From Coq Require Import List ZArith QArith Qabs Extraction ExtrOcamlBasic ExtrOcamlZBigInt.
-From LN Require Import C04_Defs C04_Reduce C04_Step C04_Iter_Defs.
+From LN Require Import C04_Defs C04_Reduce C04_Step C04_Iter_Defs C04_Rest_Defs.
 Extraction Language OCaml.
 (* Z.gcd is not in the list of ExtrOcamlZBigInt: realised by Zarith's gcd (non-negative, gcd 0 b = |b|, as Z.gcd); only
    C04_Iter_Defs.qnorm uses it, to keep the fractions of the iteration model reduced *)
@@ -14,4 +14,6 @@ Extraction "extracted/c04_model.ml" dot vadd vsub vscale mv mtv sumsq msumsq vma
   make_smax step_len step_point all_pos_b
   qnorm vnorm vmul vquo vopp upd res2 res_init wvec hessvar lmat lvec back_subst trial stage1_ok stage2_ok revert_test sgn_sd
   precise_test stage1 stage2 iter_core iter_step iter_start iter_run i_done sys_residual all_zero_b strict_b step_init
+  kkt_mat kkt_vec eq_lmat eq_lvec approx_b eq_solve eq_sys_residual gram msf_target msf_rhs msf_residual msf_slack msf_accept
+  msf_loop msf_run msf_round_valid_b msf_ys_ok_b make_x0 default_x0 lu_ok_b
   Qred Qplus Qminus Qmult Qdiv Qopp Qabs.Qabs Qle_bool Qeq_bool inject_Z.
